@@ -61,7 +61,14 @@ func Work(p *Property, fam *Family, c *Ctx, lo, hi int, outPath string) error {
 		tags = map[string]bool{}
 	}
 	nsamples := 0
+	nviol := 0
 	for i := lo; i < hi; i++ {
+		if nviol > 30 {
+			// this part of the case list has already produced dozens of violations: the tree is decided, and a tree
+			// that makes every case slow (runaway loops) would otherwise keep the check busy for hours
+			sum.Count["cases_skipped_after_30_violations_in_one_chunk"] += hi - i
+			break
+		}
 		fmt.Fprintf(f, "B %d\n", i)
 		r := fam.Run(c, i)
 		fmt.Fprintf(f, "E %d %s\n", i, r.Verdict)
@@ -94,6 +101,7 @@ func Work(p *Property, fam *Family, c *Ctx, lo, hi int, outPath string) error {
 		}
 		switch r.Verdict {
 		case Violated:
+			nviol++
 			rec := ViolRec{Property: p.ID, Family: fam.Name, Seed: c.Seed, Idx: i, Tier: c.Tier, Viol: r.Viol}
 			b, _ := json.Marshal(rec)
 			fmt.Fprintf(f, "V %s\n", b)
